@@ -48,7 +48,7 @@ func pickCfg(i int, bulk int, layout string) Cfg {
 		FlushThld:   []int{1, 2, 5, 100000}[i%4],
 		SyncThld:    []int{1, 3, 100000}[i%3],
 		MinNode:     i%2 == 0,
-		CacheSize:   []int{1, 2, 64}[i%3],
+		CacheSize:   []int{1, 64, 1 << 20}[i%3], // the size is a weight in bytes: 1 and 64 cache nothing, 1 MiB caches every node
 		MaxBuffered: []int{1, 200, 1 << 20}[i%3],
 		Block:       []int{1, 8, 40, 100}[i%4], // the index directory is named after the hex of the target prefix (NAME_MAX)
 		Multi:       layout != "P" || i%2 == 0,
@@ -355,6 +355,27 @@ func (w *world) snapshot(x, n int) (*store.Snapshot, error) {
 	ctx, cancel := w.ctx()
 	defer cancel()
 	return w.st.SnapshotMustIncludeTxID(ctx, w.c.key(w.idx[x-1].Tgt), uint64(n))
+}
+
+var dumpQuery = AQuery{Op: "dump", Via: "snap", Flt: []string{}, K: AKey{}, P: AKey{}, Neq: AKey{}, Seek: AKey{}, End: AKey{}}
+
+// settledSnapshot returns a snapshot of index x whose index time is at least n: it polls the snapshot itself, not
+// only WaitForIndexingUpto (after a restart of the index the reported progress can be ahead of the index).
+func (w *world) settledSnapshot(x, n int) (*store.Snapshot, error) {
+	var last error
+	for end := time.Now().Add(2 * deadline); time.Now().Before(end); time.Sleep(3 * time.Millisecond) {
+		snap, err := w.snapshot(x, n)
+		if err == nil {
+			if int(snap.Ts()) >= n {
+				return snap, nil
+			}
+			last = fmt.Errorf("snapshot at index time %d", snap.Ts())
+			snap.Close()
+		} else {
+			last = err
+		}
+	}
+	return nil, fmt.Errorf("index %d did not reach index time %d: %w", x, n, last)
 }
 
 // exec runs one query against index x; snap (if non-nil) is used for snapshot reads, otherwise one is taken
